@@ -42,6 +42,10 @@ type ReplicaPlan struct {
 	// apply (counted from its first start, or from its restart when
 	// FailAfterRestart) reports one transient storage error; every other call
 	// succeeds. The replica must still converge.
+	// Hot: this replica's join / stop / restart events are executed by a second
+	// goroutine WHILE the writes of the phase that follows their boundary run
+	// (instead of before the phase starts)
+	Hot              bool `json:"hot,omitempty"`
 	FailApplyAt      int  `json:"fail_apply_at,omitempty"`
 	FailAfterRestart bool `json:"fail_after_restart,omitempty"`
 }
@@ -65,7 +69,16 @@ type Case struct {
 	// early writes (and with them goes through its receive/reconnect cycles), sits
 	// connected through 16-22 s of silence and then gets a burst of 150-400
 	// single-key writes (more than one catch-up round of 100 entries).
+	//
+	// Shape "hot_phase": 2000-4000 back-to-back single-key writes (a few hundred
+	// milliseconds without any pacing) while replicas open streams: a replica
+	// that is already streaming and reconnects after every batch, a replica that
+	// joins, or one that is restarted, during the burst. The replicas' reconnect
+	// delay (RetryBaseMs) is 20-100 ms so that several stream openings fall into
+	// the burst and the backlog is fetched at 100 entries per ~0.1 s.
 	Shape string `json:"shape,omitempty"`
+	// RetryBaseMs > 0: ReplicaConfig.Connection.RetryBaseDelay of every replica
+	RetryBaseMs int `json:"retry_base_ms,omitempty"`
 }
 
 const bigMem = 32 << 20
@@ -122,6 +135,56 @@ func genCase(t *rapid.T) Case {
 		if rapid.IntRange(0, 2).Draw(t, "ab_second") == 0 {
 			c.Replicas = append(c.Replicas, ReplicaPlan{JoinAt: rapid.IntRange(0, 2).Draw(t, "join"), RestartAt: -1, UpAgainAt: -1,
 				Wait: rapid.Bool().Draw(t, "wait"), Cfg: drive.Cfg{MemTableSize: bigMem, MaxMemTables: 4, SyncBytes: 4096}})
+		}
+		return c
+	}
+	if rapid.IntRange(0, 4).Draw(t, "hot_phase") == 0 {
+		c.Shape = "hot_phase"
+		single := func(n int) (ops []Op) {
+			for i := 0; i < n; i++ {
+				if rapid.IntRange(0, 4).Draw(t, "hp_del") == 0 {
+					ops = append(ops, Op{Op: "del", K: rapid.IntRange(0, nk-1).Draw(t, "k")})
+				} else {
+					ops = append(ops, Op{Op: "put", K: rapid.IntRange(0, nk-1).Draw(t, "k"), V: &drive.Val{Len: rapid.IntRange(1, 200).Draw(t, "vlen"), Tag: tag}})
+					tag++
+				}
+			}
+			return
+		}
+		hot := 0
+		if rapid.Bool().Draw(t, "hp_early") {
+			c.Phases = append(c.Phases, Phase{Ops: single(rapid.IntRange(1, 20).Draw(t, "hp_nearly")), PauseMs: rapid.SampledFrom([]int{0, 300, 1500}).Draw(t, "pause")})
+			hot = 1
+		}
+		c.Phases = append(c.Phases, Phase{Ops: single(rapid.IntRange(2000, 4000).Draw(t, "hp_n"))})
+		if rapid.Bool().Draw(t, "hp_tail") {
+			c.Phases[hot].PauseMs = rapid.SampledFrom([]int{0, 300}).Draw(t, "pause")
+			c.Phases = append(c.Phases, Phase{Ops: single(rapid.IntRange(2, 10).Draw(t, "hp_ntail"))})
+		}
+		c.RetryBaseMs = rapid.SampledFrom([]int{20, 20, 50}).Draw(t, "retry_base")
+		c.FastHeartbeat = rapid.Bool().Draw(t, "fast_heartbeat")
+		if c.FastHeartbeat {
+			c.HBTimeoutMs = rapid.SampledFrom([]int{700, 1000, 2000}).Draw(t, "hb_timeout")
+		}
+		nrep := 2 // two replicas: twice as many stream openings inside the burst
+		for r := 0; r < nrep; r++ {
+			rp := ReplicaPlan{RestartAt: -1, UpAgainAt: -1, Cfg: drive.Cfg{MemTableSize: bigMem, MaxMemTables: 4, SyncBytes: 4096}}
+			switch rapid.SampledFrom([]string{"streaming", "hot_join", "hot_restart"}).Draw(t, "hp_role") {
+			case "streaming": // connected before the burst; its own reconnects overlap the writes
+				rp.JoinAt, rp.Wait = rapid.IntRange(0, hot).Draw(t, "join"), true
+			case "hot_join":
+				rp.JoinAt, rp.Hot = hot, true
+			case "hot_restart":
+				if hot == 0 {
+					rp.JoinAt, rp.Hot = 0, true // nothing before the burst: a join during the burst
+					break
+				}
+				// joined and caught up before the burst, stopped and restarted during it
+				rp.JoinAt, rp.Wait = 0, true
+				rp.RestartAt, rp.UpAgainAt = hot, hot
+				rp.Hot = true
+			}
+			c.Replicas = append(c.Replicas, rp)
 		}
 		return c
 	}
@@ -478,6 +541,18 @@ func classify(c *Case) (bool, []string) {
 			if r.JoinAt > hugeIn || r.UpAgainAt > hugeIn {
 				cl = append(cl, "join_or_restart_after_huge_value")
 				break
+			}
+		}
+	}
+	if c.Shape == "hot_phase" {
+		cl = append(cl, "back_to_back_burst(2000-4000)_with_overlapping_stream_openings")
+		for _, r := range c.Replicas {
+			if r.Hot && r.RestartAt >= 0 {
+				cl = append(cl, "restart_during_burst")
+			} else if r.Hot {
+				cl = append(cl, "join_during_burst")
+			} else {
+				cl = append(cl, "reconnects_during_burst")
 			}
 		}
 	}
